@@ -82,7 +82,7 @@ def run(ctx):
         ctx.violation("implementation violates C04: " + json.dumps({k: v for k, v in f.items() if k not in ("lines",)}, ensure_ascii=False)[:500],
                       {"kind": "impl-vs-oracle", "case": {k: v for k, v in f.items() if k != "lines"}, "lines": f["lines"]}, tag="oracle",
                       signature={"kind": "c04-oracle", "call_site": "other", "why": f["why"]})
-    found = any(True for f in oracle_fail)
+    found = bool(ctx.violations)          # (a loss attributed to a known finding does not count)
     if not pr["ok"] and not found:
         ctx.violation("theorem(s) no longer check: " + ", ".join(pr["failed"]), {"kind": "theorem", "theorems": pr["failed"], "lean_output": pr["output"][-1500:]}, tag="theorem", no_input=True)
     if disagreements and not found:
